@@ -4,7 +4,8 @@ package concurrent
 // Specify the max number of goroutines running at the same time.
 func Foreach[E any](concurrencyLimit int, collection []E, f func(E)) {
 	sem := make(chan bool, concurrencyLimit)
-	for _, element := range verifPermute(collection) {
+	collection = verifPermute(collection)
+	for _, element := range collection {
 		sem <- true
 		go func(element E) {
 			verifEnter()
